@@ -90,32 +90,66 @@ def table_rules(facts, rep):
         fast = calls_matching(g, r"from_utf8$")
         slow = [(b, tt) for b, tt in g.calls() if callee_matches(tt, r"Iterator::map$")]
         alls = calls_matching(g, r"Iterator::all$")
-        good = len(fast) == 1 and len(slow) == 1 and len(alls) == 1
+        # std's own spelling of the same predicate: <[u8]>::is_ascii() is "every byte < 0x80" by definition
+        asc = [(b, tt) for b, tt in g.calls() if callee_matches(tt, r"\[u8\]>::is_ascii$|slice::<impl \[u8\]>::is_ascii$|^core::slice::ascii::<impl \[u8\]>::is_ascii$")]
+        PRED = r"Iterator::all$|::is_ascii$"
+        good = len(fast) == 1 and len(slow) == 1 and len(alls) + len(asc) == 1
         if good:
             fs = dominating_facts(g, exg, fast[0][0])
-            good = any(x[0] == "truth" and x[2] is True and x[1][0] == "call" and x[1][1].endswith("Iterator::all") for x in fs)
+            good = any(x[0] == "truth" and x[2] is True and x[1][0] == "call" and re.search(PRED, x[1][1]) for x in fs)
             fs2 = dominating_facts(g, exg, slow[0][0])
-            good = good and any(x[0] == "truth" and x[2] is False and x[1][0] == "call" and x[1][1].endswith("Iterator::all") for x in fs2)
+            good = good and any(x[0] == "truth" and x[2] is False and x[1][0] == "call" and re.search(PRED, x[1][1]) for x in fs2)
             m = norm(exg.operand(slow[0][1]["args"][1], (slow[0][0], None)))
             by_path = {c.path: c for c in facts.fns if c.kind == "Closure"}
             mc = by_path.get(m[2]) if m[0] == "agg" and m[1] == "closure" else None
             uses_to_char = (m[0] == "fn" and m[1].endswith("cp437::to_char")) or (mc is not None and any(callee_matches(t2, r"^cp437::to_char$") for _, t2 in mc.calls()))
             good = good and uses_to_char
-            # the predicate handed to all(): the closure object itself (wherever it was written -- a helper may have been inlined)
-            pa = norm(exg.operand(alls[0][1]["args"][1], (alls[0][0], None)))
-            pc = by_path.get(pa[2]) if pa[0] == "agg" and pa[1] == "closure" else None
-            good = good and pc is not None
-            if good:
-                ra = ret_alts(pc)
-                good = len(ra) == 1 and ra[0][0] == "bin" and ((ra[0][1] == "Lt" and ra[0][3] == ("const", "u8", 128)) or (ra[0][1] == "Le" and ra[0][3] == ("const", "u8", 127)))
+            if alls:
+                # the predicate handed to all(): the closure object itself (wherever it was written -- a helper may have been inlined)
+                pa = norm(exg.operand(alls[0][1]["args"][1], (alls[0][0], None)))
+                pc = by_path.get(pa[2]) if pa[0] == "agg" and pa[1] == "closure" else None
+                good = good and pc is not None
+                if good:
+                    ra = ret_alts(pc)
+                    good = len(ra) == 1 and ra[0][0] == "bin" and ((ra[0][1] == "Lt" and ra[0][3] == ("const", "u8", 128)) or (ra[0][1] == "Le" and ra[0][3] == ("const", "u8", 127)))
             # ... and it is asked about the very bytes that are converted
             if good:
-                it = norm(exg.operand(alls[0][1]["args"][0], (alls[0][0], None)))
+                site = alls[0] if alls else asc[0]
+                it = norm(exg.operand(site[1]["args"][0], (site[0], None)))
                 good = any(x == ("arg", 1, "self") for x in walk(it))
         ok &= rep.check(good, rule, "fast-path:%s" % g.impl_self, where(g, g.span), "bytes taken as UTF-8 only when all are < 0x80; otherwise each byte through to_char",
                         "from_cp437 for %s takes its fast path under another condition than 'all bytes < 0x80' (valid multi-byte UTF-8 would bypass CP437)" % g.impl_self)
     rep.floor(rule, 5)
     return ok
+
+
+def _flag_table_by_paths(f, agg_bb, nfields):
+    from engine.paths import paths as _paths, PathExplosion
+    try:
+        ps = _paths(f, max_paths=20000)
+    except PathExplosion:
+        return False
+    rows = {"set": 0, "clear": 0}
+    for p in ps:
+        if agg_bb not in p["blocks"]:
+            continue
+        upto = p["blocks"].index(agg_bb)
+        bit = None
+        for (a_, v_), pos_ in zip(p["decisions"], p["dpos"]):
+            if a_ != "#iter" and pos_ <= upto and re.search(r"^BitAnd\(.*, 2048\)$", a_):
+                bit = "clear" if v_ == 0 else ("set" if v_ == 2048 or (isinstance(v_, tuple) and v_[0] == "not-in" and tuple(v_[1]) == (0,)) else "other")
+                break
+        if bit not in ("set", "clear"):
+            return False
+        eff = [e for e, pos_ in zip(p["effects"], p["epos"]) if pos_ <= upto]
+        lossy = [e for e in eff if e[1].endswith("from_utf8_lossy")]
+        cp = [e for e in eff if e[1].endswith("from_cp437")]
+        if bit == "set" and not (len(lossy) == nfields and not cp):
+            return False
+        if bit == "clear" and not (len(cp) == nfields and not lossy):
+            return False
+        rows[bit] += 1
+    return rows["set"] >= 1 and rows["clear"] >= 1
 
 
 def flag_decode_rules(facts, rep):
@@ -148,6 +182,10 @@ def flag_decode_rules(facts, rep):
                 else:
                     kinds["?" + show(val)[:40]] = (flag, others)
             good = set(kinds) == {"utf8", "cp437"} and kinds["utf8"][0] is True and kinds["cp437"][0] is False and not kinds["utf8"][1] and not kinds["cp437"][1]
+            if not good:
+                # the same table decided on paths (however the choice is spelled: match / if-else yielding a tuple / a helper): on every
+                # path that builds the entry, bit 11 was tested, and the decoders that ran are exactly the ones it calls for
+                good = _flag_table_by_paths(f, bi, len(fields))
             ok &= rep.check(good, rule, "%s@%s" % (fld, f.path.split("::")[-1]), where(f, s["span"]),
                             "bit 11 set => String::from_utf8_lossy (never an error); clear => from_cp437; nothing else decides",
                             "%s is decoded as %s" % (fld, {k: ("bit11=%s" % v[0], [show(o[1])[:40] for o in v[1]]) for k, v in kinds.items()}))
